@@ -1655,6 +1655,53 @@ def params_model(y):
     return (no * 4).to_bytes(8, "little") + pad(p) + pad(curve[1][0][1]) + pad(curve[1][1][1]) + pad(uint_le(q[1])) + pad(yG[1]) + seed, len(kids) == 6
 
 
+def _der_is_constructed(tag):
+    t = tag
+    while t > 0xFF:
+        t >>= 8
+    return bool(t & 0x20)
+
+
+def oversized_variants(x, sizes=(65, 100, 330, 1000)):
+    """well-formed DER in which ONE primitive element carries far more content octets than any field of the decoded
+    structure can hold (all enclosing lengths are re-computed): a decoder must check the length before it copies"""
+    out = []
+
+    def prims(v, path):
+        pos, i = 0, 0
+        while pos < len(v):
+            tag, val, n = D.dec(v[pos:])
+            if _der_is_constructed(tag):
+                prims(val, path + [i])
+            else:
+                found.append(path + [i])
+            pos += n
+            i += 1
+
+    def rebuild(v, path, content):
+        pos, i, acc = 0, 0, b""
+        while pos < len(v):
+            tag, val, n = D.dec(v[pos:])
+            if i == path[0]:
+                acc += D.enc(tag, content if len(path) == 1 else rebuild(val, path[1:], content))
+            else:
+                acc += v[pos:pos + n]
+            pos += n
+            i += 1
+        return acc
+
+    found = []
+    try:
+        prims(x, [])
+    except Exception:
+        return out
+    for k, path in enumerate(found):
+        for sz in sizes:
+            content = bytes([0x01] + [((k + j) * 37 + 11) & 0xFF for j in range(sz - 1)])
+            out.append(("oversized-element", k * 10000 + sz, rebuild(x, path, content)))
+    return out
+
+
 def unit_params(ctx):
     models()
     lib = ctx.lib
@@ -1720,7 +1767,8 @@ def unit_params(ctx):
         for sample, base in (("std" + lvl, x), ("std" + lvl + "+cofactor", with_cof)):
             if sample.endswith("cofactor") and lvl != "1":
                 continue
-            for label, pos, y, crashy in [("valid", 0, base, False)] + ordered_variants(base, nops):
+            for label, pos, y, crashy in [("valid", 0, base, False)] + ordered_variants(base, nops) + \
+                    [(l, p_, y_, False) for l, p_, y_ in oversized_variants(base)]:
                 cls = "params:" + label
                 # truncations that end between the header and the content of a SIZE field: the library is known to read on;
                 # a few per job show it, the rest would only cost worker restarts
@@ -1835,7 +1883,8 @@ def unit_cvc(ctx):
     extra = []
     if not any(eid) and not any(esign):
         extra.append(("explicit-zero-hats", 0, cvc_model_enc(cvc, True, True)))
-    for label, pos, y, crashy in [("valid", 0, cert, False)] + [e + (False,) for e in extra] + ordered_variants(cert, nops, (0x5F29,)):
+    for label, pos, y, crashy in [("valid", 0, cert, False)] + [e + (False,) for e in extra] + ordered_variants(cert, nops, (0x5F29,)) + \
+            [(l, p_, y_, False) for l, p_, y_ in oversized_variants(cert, (130, 600))]:
         cls = "cvc:" + label
         if label == "truncated" and crashy:
             if budget["size-truncation"] <= 0:
@@ -2012,7 +2061,8 @@ def unit_bpki(ctx):
             r = lib.bpkiCSRUnwrap(o, 0, p, len(y))
             return lib.rd(o, m) if r == 0 else Odd("probe-and-copy-differ")
 
-        for label, pos, y, crashy in [("valid", 0, x, False)] + ordered_variants(x, 2 if ctx.params.get("scale", 1.0) < 1.0 else 4):
+        for label, pos, y, crashy in [("valid", 0, x, False)] + ordered_variants(x, 2 if ctx.params.get("scale", 1.0) < 1.0 else 4) + \
+                [(l, p_, y_, False) for l, p_, y_ in oversized_variants(x, (130, 1100))]:
             cls = "bpki:csr:" + label
             if label == "truncated" and crashy:
                 if budget["size-truncation"] <= 0:
